@@ -93,6 +93,7 @@ type Struct struct {
 	Trailing         bool     // `struct { // comment`
 	Hands            []Hand
 	Derived          string // `type Name Derived` (fields are those of the struct named Derived)
+	DerivedArgs      string // `type Name Derived[int]`: type arguments when the base is generic ("" otherwise)
 	TypeParamsJoined bool   // `[K, V any]` instead of `[K any, V any]` (all constraints equal)
 	Origin           string // provenance: seed name or "grammar"
 	Combo            *Combo // annotation-combination struct (combos.go): compile errors are keyed by the minimal failing subset
